@@ -204,7 +204,8 @@ HARNESSES = {}
 
 
 class Harness:
-    def __init__(self, prop, name, fn, params, desc="", split_depth=6, known=None):
+    def __init__(self, prop, name, fn, params, desc="", split_depth=6, known=None, fresh_solver=False):
+        self.fresh_solver = fresh_solver
         self.prop = prop
         self.name = name
         self.fn = fn
@@ -232,6 +233,7 @@ def _worker_job(key, job, roots, max_paths, deadline, seed, validate_cap, split_
     """runs in a worker process"""
     h = HARNESSES[key]
     eng = E.set_engine(E.Engine(seed=seed))
+    eng.fresh_solver_per_path = h.fresh_solver
     eng.split_depth = split_depth if job == "split" else None
     res = dict(cex=[], samples=[], validated=0, validation_errors=[], errors=[], native_skipped=0)
     state = dict(x=None, obs=None, n=0)
@@ -250,7 +252,7 @@ def _worker_job(key, job, roots, max_paths, deadline, seed, validate_cap, split_
         do_validate = n <= validate_cap or n % 16 == 0
         if not (want_sample or do_validate or failed):
             return
-        m = eng.get_model()
+        m = eng.get_model(timeout_ms=5000 if not failed else None)
         if m is None:
             return
         if do_validate and eng.noise_sites and any(z3.is_true(m.eval(q, model_completion=True)) for q in eng.noise_sites):
